@@ -166,21 +166,7 @@ fn spec_for(c: &Case, await_mode: AwaitMode) -> ExchangeSpec {
     }
 }
 
-fn classify(reason: &str) -> Option<usize> {
-    if reason.contains("1.0") {
-        Some(0)
-    } else if reason.contains("client") {
-        Some(1)
-    } else if reason.contains("server") {
-        Some(2)
-    } else if reason.contains("100") {
-        Some(3)
-    } else if reason.contains("delimited") {
-        Some(4)
-    } else {
-        None
-    }
-}
+use crate::drive::reasons::classify;
 
 /// One (case, look-prefix) run: windows grow to `p` in the given steps; then the caller proceeds.
 fn run_prefix(c: &Case, p: usize, steps: &[usize], s: &mut Sched, st: &mut Stats) -> Result<(), String> {
@@ -210,8 +196,7 @@ fn run_prefix(c: &Case, p: usize, steps: &[usize], s: &mut Sched, st: &mut Stats
     }
     let mut sr = f.proceed();
     let mut out = vec![0u8; 4096];
-    let n = sr.write(&mut out).map_err(|e| format!("head write: {:?}", e))?;
-    let req_head = out[..n].to_vec();
+    let req_head = crate::drive::redirect::write_head_until_ready(&mut sr, &mut out).map_err(|e| format!("head write: {:?}", e))?;
     let mut a = match sr.proceed().map_err(|e| format!("{:?}", e))?.ok_or("head incomplete")? {
         SendRequestResult::Await100(a) => a,
         _ => return Err(what("Expect: 100-continue with a body due did not enter Await100".into())),
